@@ -92,6 +92,8 @@ def parseOp (j : Json) (implR : Json) : R Op := do
   | "ins_last" => return .insLast (← n 1) (← n 2) (← n 3)
   | "ins_nojob" => return .insNoJob (← n 1) (← n 2)
   | "rem" => return .rem (← n 1) (← n 2)
+  -- the key is a task of a multi job wrapped as a job of its own: a job no tour owns (ids of the world are small)
+  | "rem_sub" => return .rem (← n 1) (1000000 + 100 * (← n 2) + (← n 3))
   | "rem_at" => return .remAt (← n 1) (← n 2)
   | "touch" => return .touch (← n 1)
   | "accept" => return .accept (← n 1)
